@@ -6,6 +6,7 @@
 //	tables            print Tables.v generated from /repo/brotli's tables
 //	dict FILE         dump the static dictionary (and check it against libbrotli)
 //	run  ...          generate inputs, compare model / libbrotli / brotli.Reader
+//	extend REPORT     check that early Corrupted verdicts of brotli.Reader have no valid extension
 package main
 
 import (
@@ -26,6 +27,8 @@ func main() {
 		w.Flush()
 	case "dict":
 		dumpDict(os.Args[2])
+	case "extend":
+		extendMain(os.Args[2])
 	case "run":
 		runMain(os.Args[2:])
 	default:
